@@ -186,6 +186,10 @@ pub struct WorldCfg {
     /// created after a re-registration, and its first pair has lived through one
     #[serde(default)]
     pub staged_decimals: Vec<u8>,
+    /// 0: the router gets the same allowance as the pairs; 255: none at all; k: 2^(k-1) - an allowance a
+    /// holder's balance can cover (the router never needs one: routes reach it through `Send` or with coins)
+    #[serde(default)]
+    pub router_allowance: u8,
 }
 
 #[derive(Clone, Debug)]
@@ -816,8 +820,20 @@ impl World {
             for t in w.tokens.clone() {
                 for h in w.holders() {
                     for s in &spenders {
+                        let amount = if *s == w.router {
+                            match cfg.router_allowance {
+                                0 => cfg.allowance,
+                                255 => 0,
+                                k => 1u128 << (k - 1).min(126),
+                            }
+                        } else {
+                            cfg.allowance
+                        };
+                        if amount == 0 {
+                            continue;
+                        }
                         w.app
-                            .execute_contract(h.clone(), t.addr.clone(), &Cw20ExecuteMsg::IncreaseAllowance { spender: s.to_string(), amount: Uint128::new(cfg.allowance), expires: None }, &[])
+                            .execute_contract(h.clone(), t.addr.clone(), &Cw20ExecuteMsg::IncreaseAllowance { spender: s.to_string(), amount: Uint128::new(amount), expires: None }, &[])
                             .map_err(|x| format!("{:#}", x))?;
                     }
                 }
